@@ -182,11 +182,13 @@ class BuildSystem():
             if processor.success:
                 return True, processor.nonbond_matrix
             elif step_count == self.maxiter:
-                processor.nonbond_matrix.remove_positions(mol_idx, molecule.nodes)
+                built = [node for node in molecule.nodes if molecule.nodes[node]["build"]]
+                processor.nonbond_matrix.remove_positions(mol_idx, built)
                 return False, processor.nonbond_matrix
             else:
                 step_count += 1
-                self.nonbond_matrix.remove_positions(mol_idx, molecule.nodes)
+                built = [node for node in molecule.nodes if molecule.nodes[node]["build"]]
+                self.nonbond_matrix.remove_positions(mol_idx, built)
 
     def _compose_system(self, molecules):
         """
